@@ -70,4 +70,10 @@ MUTANTS = [
     {"id": "c19-default-appended", "expect": "fire", "edits": [(F, "                args.insert(0, self.default_command)", "                args.append(self.default_command)")]},
     {"id": "c19-n-propagate-is-not-false", "expect": "silent", "edits": [(F, "        if propagate:\n", "        if propagate is not False:\n")]},
     {"id": "c19-propagate-inverted", "expect": "fire", "edits": [(F, "        if propagate:\n", "        if propagate is False:\n")]},
+    # registration through one loop over [parent, *ancestors] (receiver terms of R19a)
+    {"id": 'c19-n-parent-and-ascendants-list', "expect": 'silent', "edits": [(F, '            for p in parents:\n                parent_parser = self.command_parsers[p]\n                if parser_name not in parent_parser._dependent_parsers:\n                    parent_parser.register_dependent(parser_name, cmd_parser)\n                # ... and all ascendants\n                for parser in self.command_parsers.values():\n                    if (p in parser._dependent_parsers\n                            and parser_name not in parser._dependent_parsers):\n                        parser.register_dependent(parser_name, cmd_parser)\n', '            for p in parents:\n                parent_parser = self.command_parsers[p]\n                ascendants = [\n                    parser for parser in self.command_parsers.values()\n                    if p in parser._dependent_parsers\n                ]\n                for parser in [parent_parser, *ascendants]:\n                    if parser_name not in parser._dependent_parsers:\n                        parser.register_dependent(parser_name, cmd_parser)\n')]},
+    {"id": 'c19-list-form-ascendants-wrong-cond', "expect": 'fire', "edits": [(F, '            for p in parents:\n                parent_parser = self.command_parsers[p]\n                if parser_name not in parent_parser._dependent_parsers:\n                    parent_parser.register_dependent(parser_name, cmd_parser)\n                # ... and all ascendants\n                for parser in self.command_parsers.values():\n                    if (p in parser._dependent_parsers\n                            and parser_name not in parser._dependent_parsers):\n                        parser.register_dependent(parser_name, cmd_parser)\n', '            for p in parents:\n                parent_parser = self.command_parsers[p]\n                ascendants = [\n                    parser for parser in self.command_parsers.values()\n                    if parser_name in parser._dependent_parsers\n                ]\n                for parser in [parent_parser, *ascendants]:\n                    if parser_name not in parser._dependent_parsers:\n                        parser.register_dependent(parser_name, cmd_parser)\n')]},
+    {"id": 'c19-list-form-without-parent', "expect": 'fire', "edits": [(F, '            for p in parents:\n                parent_parser = self.command_parsers[p]\n                if parser_name not in parent_parser._dependent_parsers:\n                    parent_parser.register_dependent(parser_name, cmd_parser)\n                # ... and all ascendants\n                for parser in self.command_parsers.values():\n                    if (p in parser._dependent_parsers\n                            and parser_name not in parser._dependent_parsers):\n                        parser.register_dependent(parser_name, cmd_parser)\n', '            for p in parents:\n                parent_parser = self.command_parsers[p]\n                ascendants = [\n                    parser for parser in self.command_parsers.values()\n                    if p in parser._dependent_parsers\n                ]\n                for parser in ascendants:\n                    if parser_name not in parser._dependent_parsers:\n                        parser.register_dependent(parser_name, cmd_parser)\n')]},
+    {"id": 'c19-list-form-only-parent', "expect": 'fire', "edits": [(F, '            for p in parents:\n                parent_parser = self.command_parsers[p]\n                if parser_name not in parent_parser._dependent_parsers:\n                    parent_parser.register_dependent(parser_name, cmd_parser)\n                # ... and all ascendants\n                for parser in self.command_parsers.values():\n                    if (p in parser._dependent_parsers\n                            and parser_name not in parser._dependent_parsers):\n                        parser.register_dependent(parser_name, cmd_parser)\n', '            for p in parents:\n                parent_parser = self.command_parsers[p]\n                ascendants = [\n                    parser for parser in self.command_parsers.values()\n                    if p in parser._dependent_parsers\n                ]\n                for parser in [parent_parser]:\n                    if parser_name not in parser._dependent_parsers:\n                        parser.register_dependent(parser_name, cmd_parser)\n')]},
+    {"id": 'c19-list-form-break-after-first', "expect": 'fire', "edits": [(F, '            for p in parents:\n                parent_parser = self.command_parsers[p]\n                if parser_name not in parent_parser._dependent_parsers:\n                    parent_parser.register_dependent(parser_name, cmd_parser)\n                # ... and all ascendants\n                for parser in self.command_parsers.values():\n                    if (p in parser._dependent_parsers\n                            and parser_name not in parser._dependent_parsers):\n                        parser.register_dependent(parser_name, cmd_parser)\n', '            for p in parents:\n                parent_parser = self.command_parsers[p]\n                ascendants = [\n                    parser for parser in self.command_parsers.values()\n                    if p in parser._dependent_parsers\n                ]\n                for parser in [parent_parser, *ascendants]:\n                    if parser_name not in parser._dependent_parsers:\n                        parser.register_dependent(parser_name, cmd_parser)\n                        break\n')]},
 ]
